@@ -74,14 +74,24 @@ def concrete_cells() -> Dict[str, str]:
 class Real:
     """the real operations on a real SimulationState"""
 
-    def __init__(self):
+    def __init__(self, network: str = "haversine"):
         import logging
 
         logging.disable(logging.CRITICAL)
         from nrel.hive.model.roadnetwork.haversine_roadnetwork import HaversineRoadNetwork
         from nrel.hive.state.simulation_state.simulation_state import SimulationState
 
-        self.rn = HaversineRoadNetwork()
+        self.network = network
+        if network == "osm":
+            # a street network: the model's cells are NOT on any street's line of cells, as the interpolated position of a
+            # vehicle under way is not - an entity is indexed where it IS, not where the network would snap it to
+            import random
+
+            from hv import routes
+
+            self.rn = routes.osm_from_graph(routes.gen_graph(random.Random(8), 16))
+        else:
+            self.rn = HaversineRoadNetwork()
         self.empty = SimulationState(road_network=self.rn, sim_h3_location_resolution=15, sim_h3_search_resolution=7)
         self.cells = concrete_cells()
         self.abs_of = {v: k for k, v in self.cells.items()}
@@ -114,6 +124,10 @@ class Real:
         else:
             old = coll[x]
             pos = self.rn.position_from_geoid(self.cells[c])
+            if self.network == "osm":
+                from nrel.hive.model.entity_position import EntityPosition
+
+                pos = EntityPosition(pos.link_id, self.cells[c])      # on that link, at the cell itself (under way)
             r = getattr(ops, f"modify_{name}_safe")(sim, replace(old, position=pos))
         if isinstance(r, Failure):
             return sim, False
@@ -158,8 +172,8 @@ def _fix(ent: Any) -> Dict[str, Dict[str, str]]:
     return {k: (ent[k] if isinstance(ent[k], dict) else {}) for k in KINDS}
 
 
-def replay_edges(ctx: Ctx, edges: List[Dict[str, Any]]) -> Tuple[int, int]:
-    real = Real()
+def replay_edges(ctx: Ctx, edges: List[Dict[str, Any]], network: str = "haversine") -> Tuple[int, int]:
+    real = Real(network)
     sims = {_key({k: {} for k in KINDS}): real.empty}
     pending = list(edges)
     done = 0
@@ -180,7 +194,7 @@ def replay_edges(ctx: Ctx, edges: List[Dict[str, Any]]) -> Tuple[int, int]:
             if not accepted:
                 refused += 1
             proj = real.project(new)
-            sig = f"{op['op']}/{op['k']}"
+            sig = f"{op['op']}/{op['k']}" + ("/street_network" if network == "osm" else "")
             if _key(proj["ent"]) != _key(t):
                 ctx.violation("entities_follow_operation" if op["k"] in ("veh", "req") or op["op"] != "modify" else "stations_and_bases_never_move",
                               sig, edge=e, real_after=proj["ent"])
@@ -224,6 +238,10 @@ def run(ctx: Ctx) -> None:
             raise MachineryError("no transitions exported")
         d, r = replay_edges(ctx, edges)
         done, refused, distinct = done + d, refused + r, distinct + res.distinct
+        if mc == configs[0][0]:
+            # the moving population once more on a street network (cells beside the streets)
+            d, r = replay_edges(ctx, edges, network="osm")
+            done, refused = done + d, refused + r
     ctx.log(f"replayed {done} model transitions through the real simulation_state_ops ({refused} refused moves of stations/bases)")
     ctx.coverage["model_transitions_replayed_in_code"] = done
     ctx.sample({"replayed_transition": edges[len(edges) // 2]})
